@@ -4,6 +4,7 @@
 // Python-safe cases are also written to a batch file for the Python peer (py/c08_peer.py).
 #include "models/refmsg.h"
 #include "models/cbuild.h"
+#include "transport/choppy.h"
 #include "iogateway/MessageIOGateway.h"
 #include "dataio/DataIO.h"
 #include "system/SetupSystem.h"
@@ -43,6 +44,12 @@ extern "C" int vf_run_case(const uint8_t * data, size_t size)
    GenOpts o; o.commonRepertoire = true; o.allowNonFlattenable = false; o.pythonSafe = bs.flip(); o.maxDepth = 3; o.maxTopOps = 14; const uint8_t cfg = bs.u8(); o.allowBursts = (cfg%6 == 0); o.allowZeroLenRaw = ((cfg>>3)%4 == 0);
    Generator gen(bs, o); Message msg; MMsg mod; gen.Gen(0, msg, mod);
    const GenStats & st = gen.st;
+   if (((cfg>>5)%8 == 7)&&(mod.find("pad") < 0))
+   {
+      // a Message whose flattened size is on or next to the 2048-byte scratch receive buffer of the C++ gateway (2030..2069 bytes): every implementation must still produce and accept it
+      const size_t flat0 = Encode(mod).size(); const size_t target = 2030+(bs.u8()%40);
+      if (flat0+25 <= target) {const size_t L = target-flat0-24; std::string v(L, '\0'); uint32 x = 99u+(uint32)L; for (size_t i=0; i<L; i++) {x = x*1664525u+1013904223u; v[i] = (char)(x>>24);} (void) msg.AddData("pad", B_RAW_TYPE, v.data(), (uint32)L); MField f; f.name = "pad"; f.tc = B_RAW_TYPE; f.items.push_back(v); mod.f.push_back(f); vf::Count("message_sized_to_the_scratch_buffer_boundary");}
+   }
 
    // C++ bytes are the documented layout
    const uint32 fs = msg.FlattenedSize(); std::string b(fs, '\0'); msg.FlattenToBytes((uint8 *)&b[0], fs);
@@ -93,6 +100,13 @@ extern "C" int vf_run_case(const uint8_t * data, size_t size)
       const std::string expect = frame+b;
       MessageIOGateway gw; CaptureIO cap; gw.SetDataIO(DummyDataIORef(cap)); (void) gw.AddOutgoingMessage(GetMessageFromPool(msg)); for (int r=0; (r<100)&&(gw.HasBytesToOutput()); r++) (void) gw.DoOutput();
       if (cap.out != expect) vf::Fail("MessageIOGateway (Enc0) frame differs from <len LE><'Enc0' LE><bytes>: %s", vf::Hex(cap.out.data(), cap.out.size(), 24).c_str());
+      // ... and a C++ gateway on the receiving end of that frame (read in two pieces) delivers the same Message
+      {
+         choppy::Pipe fpipe; for (size_t i=0; i<expect.size(); i++) fpipe.q.push_back((uint8)expect[i]); choppy::Plan plan(&bs); plan.generous = true; choppy::ChopIO rio(&fpipe, NULL, &plan);
+         MessageIOGateway rg; rg.SetDataIO(DummyDataIORef(rio)); QueueGatewayMessageReceiver q; for (int r=0; (r<50)&&(fpipe.q.size()); r++) if (rg.DoInput(q).IsError()) vf::Fail("a C++ MessageIOGateway reports an error on the frame of a %u-byte Message that the other gateways produce identically", fs);
+         MessageRef got; if ((q.GetMessages().RemoveHead(got).IsError())||(got() == NULL)) vf::Fail("a C++ MessageIOGateway does not deliver the %u-byte Message from its own frame", fs);
+         ByteBufferRef gb = got()->FlattenToByteBuffer(); if ((gb() == NULL)||(gb()->GetNumBytes() != fs)||(memcmp(gb()->GetBuffer(), b.data(), fs) != 0)) vf::Fail("the Message a C++ MessageIOGateway delivers from the common frame differs from the one that was framed (%u bytes)", fs);
+      }
       MMessageGateway * mg = MGAllocMessageGateway(); MMessage * mm = MMAllocMessage(0); (void) MMUnflattenMessage(mm, b.data(), fs); std::string o2;
       if (MGAddOutgoingMessage(mg, mm) != CB_NO_ERROR) vf::Fail("MGAddOutgoingMessage failed"); for (int r=0; (r<100)&&(MGHasBytesToOutput(mg)); r++) (void) MGDoOutput(mg, ~0u, CapSend, &o2);
       MMFreeMessage(mm); MGFreeMessageGateway(mg);
